@@ -37,6 +37,38 @@ def case(name, pat, n, tag):
     return {"id": f"{tag}-{name}-{n}", "fresh": True, "tag": f"pattern:{name}", "steps": steps}
 
 
+# Heap.tla C19a ("the accounted free count is the number of free slots") is an invariant of EVERY state; on the
+# real heap it is evaluated by the accounting sensor (hook) whenever a slot is handed out after a collection,
+# growth or compaction - whichever allocation path triggered it.  The product below makes every allocation path
+# trigger collections, with the live sets of the two lists (values / vectors) balanced and unbalanced either way.
+LIVE = {
+    "none": "(define keep@@ '())",
+    "boxes": "(define keep@@ (let loop ([i 0] [acc '()]) (if (< i 6000) (loop (+ i 1) (cons (box i) acc)) acc)))",
+    "vectors": "(define keep@@ (let loop ([i 0] [acc '()]) (if (< i 300) (loop (+ i 1) (cons (make-vector 3 i) acc)) acc)))",
+    "both": "(define keep@@ (let loop ([i 0] [acc '()]) (if (< i 300) (loop (+ i 1) (cons (box i) (cons (make-vector 2 i) acc))) acc)))",
+}
+GARBAGE = {
+    "box": "(box i)",
+    "make-vector": "(make-vector 2 i)",
+    "mutable-vector": "(mutable-vector i i)",
+    "vector": "(vector i i i)",
+    "cyclic-vector": "(let ([v (make-vector 2 i)]) (vector-set! v 0 v) v)",
+    "box-and-vector": "(box (make-vector 1 (box i)))",
+}
+
+
+def path_case(live, garbage, n):
+    steps = [{"src": LIVE[live] + f" (define (drive@@ n) (let loop ([i 0]) (if (< i n) (begin {GARBAGE[garbage]} (loop (+ i 1))) 'done)))", "class": "ok"},
+             {"src": f"(drive@@ {n})", "class": "ok"},
+             {"src": f"(drive@@ {n})", "class": "ok"},
+             # the live set is intact, and after an explicit full collection the accounting is exact as well
+             {"src": "(emit (length keep@@))", "class": "ok", "emit": [{"none": "0", "boxes": "6000", "vectors": "300", "both": "600"}[live]]},
+             {"src": "(#%gc-collect)", "class": "ok"},
+             {"op": "heap_acct", "class": "ok", "emit": ["accounting:exact", "accounting:exact"]},
+             {"src": f"(drive@@ {n // 4})", "class": "ok"}]
+    return {"id": f"path-{live}-{garbage}-{n}", "fresh": True, "tag": f"path:{live}:{garbage}", "steps": steps}
+
+
 WEAK = [
     # a weak box whose target has become unreachable reports so after a collection
     ("weak-dropped", ["(define wb@@ (let ([b (box 1)]) (make-weak-box b)))", "(#%gc-collect)", "(emit (weak-box-value wb@@))"], ["#false"]),
@@ -56,20 +88,33 @@ def run(tier, seed):
         r.violation(f"Heap.tla violates {res.get('violated')}", {"id": "model", "tlc": res["violation"][:3000]})
     n = 120000 if tier == "quick" else 1500000
     cases = [case(name, pat, n, "gc") for name, pat in PATTERNS.items()]
+    cases += [path_case(lv, g, 30000 if tier == "quick" else 400000) for lv in LIVE for g in GARBAGE]
     for name, srcs, exp in WEAK:
         steps = [{"src": s, "class": "ok"} for s in srcs]
         steps[-1]["emit"] = exp
         cases.append({"id": "weak-" + name, "fresh": True, "tag": "weak", "steps": steps})
+    acct_checks = 0
     for env in ({}, {"STEEL_JIT": "false"}):
-        verdicts = vlib.replay(cases, work, env_extra=env, jobs=12, timeout_ms=600000, name="c19")
+        verdicts = vlib.replay(cases, work, env_extra=dict(env, VERIF_ACCT_CHECK="1"), jobs=12, timeout_ms=600000, name="c19")
         tagged = [dict(c, id=c["id"] + ("@nojit" if env else "")) for c in cases]
         for t, v in zip(tagged, verdicts):
             v["id"] = t["id"]
         r.add_cases(tagged, verdicts, nontrivial=lambda c: True)
+        # non-vacuity of the sensor: every path case must have had its accounting compared several times
+        import re
+        for c, v in zip(cases, verdicts):
+            m = re.search(r"acct-checks=(\d+)", v.get("tag", ""))
+            nchk = int(m.group(1)) if m else 0
+            acct_checks += nchk
+            if c["tag"].startswith("path:") and v["pass"] and nchk < 2:
+                raise vlib.ToolError(f"accounting sensor made {nchk} comparisons in {c['id']}: the workload did not trigger collections")
     r.cov["rule"] = (f"Heap.tla invariants C19a (accounting) and C19b (precision after a full collection) for every history; "
                      f"10 garbage patterns (acyclic, cycles through boxes / mutable vectors / mutable structs / closures / continuations / hash maps) "
                      f"x {n} iterations twice on the real engine: after a full collection at most 2000 slots are still marked reachable, the slot count stays under a fixed bound and "
-                     f"the accounted free count equals the number of free slots (heap_stats hook); weak boxes of dropped targets report #false after a collection")
+                     f"the accounted free count equals the number of free slots (heap_stats hook); weak boxes of dropped targets report #false after a collection; "
+                     f"accounting sensor on in every case (C19a evaluated whenever a slot is handed out after a collection / growth / compaction), and the product "
+                     f"live set (none / boxes / vectors / both) x garbage allocation path ({', '.join(GARBAGE)}) so that every allocation path triggers collections")
+    r.notes.append(f"accounting sensor: {acct_checks} comparisons of accounted vs actual free slots after collections / growth / compaction")
     return r.finish()
 
 
